@@ -142,6 +142,14 @@ passes of `process_ir`, `IrDataSerializer.to_json`, `generate_header` and
 site list) — `post` below stands for their composition. -/
 abbrev View := Except String (List (String × String × List Atom))
 
+instance : DecidableEq View := fun a b =>
+  match a, b with
+  | .ok x, .ok y => if h : x = y then isTrue (by rw [h]) else isFalse (by intro e; cases e; exact h rfl)
+  | .error x, .error y =>
+    if h : x = y then isTrue (by rw [h]) else isFalse (by intro e; cases e; exact h rfl)
+  | .ok _, .error _ => isFalse (by intro e; cases e)
+  | .error _, .ok _ => isFalse (by intro e; cases e)
+
 def Outcome.view : Outcome → View
   | .ok ms => .ok (ms.map fun m => (m.file, m.text, m.atoms))
   | .error d => .error d
